@@ -362,8 +362,9 @@ def m_class(s, ind):
             selfk = m[7] if len(m) > 7 else 'self'
             out += m_fun(m, ind + 1, selfk)
         elif m[0] == 'init':
-            _, params, body = m
-            out += m_fun(('fun', '__init__', params, None, [], body, 'block'), ind + 1, 'self')
+            params, body = m[1], m[2]
+            # ('init', params, body, 'line'): written on one line when the body is a single statement
+            out += m_fun(('fun', '__init__', params, None, [], body) + (() if len(m) > 3 and m[3] == 'line' else ('block',)), ind + 1, 'self')
         elif m[0] == 'doc':
             out.append(IND * (ind + 1) + '"""%s"""' % m[1])
         else:
@@ -514,8 +515,12 @@ def r_class(s, ind):
     init = [m for m in members if m[0] == 'init']
     body = []
     if init:
-        _, params, ibody = init[0]
+        params, ibody = init[0][1], init[0][2]
         body.append(IND * (ind + 1) + 'def __init__(%s):' % ', '.join(['self'] + r_params(params)))
+        # parents that are given arguments are initialised before the body of the constructor runs
+        for pn, pargs in parents:
+            if pargs is not None:
+                body.append(IND * (ind + 2) + '%s.__init__(self%s)' % (pn, ''.join(', ' + r_expr(a) for a in pargs)))
         body += r_block(ibody, ind + 2, None)
     elif cargs or any(pargs is not None for _, pargs in parents):
         body.append(IND * (ind + 1) + 'def __init__(%s):' % ', '.join(['self'] + [a[0] for a in cargs]))
@@ -653,7 +658,7 @@ def _rn_stmt(s, env, sc, bound):
                 for prm in m[1]:
                     env2[prm[0]] = prm[0]
                     bound2.add(prm[0])
-                ms.append(('init', m[1], _rn_block(m[2], env2, sc, bound2)))
+                ms.append(('init', m[1], _rn_block(m[2], env2, sc, bound2)) + tuple(m[3:]))
             else:
                 ms.append(m)
         return ('class', name, cargs, [(pn, None if pa is None else [_rn_expr(a, {}) for a in pa]) for pn, pa in parents], ms)
